@@ -762,6 +762,31 @@ package leveldb
 //@   at before call (*tableCompactionBuilder).flush#1
 //@     assert [C06:tables-cut-only-at-user-key-boundary] !gPrevOK || gPrevU != krank(ukey)
 
+// C01 / C03 / C06: a deletion marker may be dropped only when no deeper level can still hold an older entry for its
+// user key. "Base level" must therefore mean: no table of any level below the compaction's output level has the
+// key inside its range. The per-level cursors only move forward; that the tables they have passed lie wholly before
+// the key (keys are presented in ascending order) is the stated assumption, as is the sortedness of the levels
+// (the C06 induction hypothesis).
+//@ spec func holdsKey(t ref, k key) bool = kcmp(k, ukeyof(t.imin)) >= 0 && kcmp(k, ukeyof(t.imax)) <= 0
+//@ func (*compaction).baseLevelForKey
+//@   props C01 C03 C06
+//@   abstract keys
+//@   safety off
+//@   at entry
+//@     assume [C01,C03,C06:one-cursor-per-level] len(c.tPtrs) == len(c.v.levels) && c.sourceLevel >= 0
+//@   at after stmt tables := c.v.levels[level]
+//@     assume [C01,C03,C06:deeper-level-sorted-and-its-cursor-behind-the-key] sortedDisjoint(tables) && 0 <= c.tPtrs[level] && (forall j int :: (0 <= j && j < c.tPtrs[level] && j < len(tables)) ==> kcmp(ukey, ukeyof(tables[j].imax)) > 0)
+//@   loop 1
+//@     modifies c.tPtrs[:]
+//@     invariant [C01,C03,C06:levels-from-the-grandparent-down] c.sourceLevel + 2 <= level
+//@     invariant [C01,C03,C06:no-table-of-the-levels-done-holds-the-key] forall l int :: (c.sourceLevel + 2 <= l && l < level && l < len(c.v.levels)) ==> (forall j int :: (0 <= j && j < len(c.v.levels[l])) ==> !holdsKey(c.v.levels[l][j], ukey))
+//@   loop 2
+//@     modifies c.tPtrs[level]
+//@     invariant [C01,C03,C06:tables-passed-lie-before-the-key] 0 <= c.tPtrs[level] && (forall j int :: (0 <= j && j < c.tPtrs[level] && j < len(tables)) ==> kcmp(ukey, ukeyof(tables[j].imax)) > 0)
+//@   at before stmt break
+//@     assert [C01,C03,C06:key-falls-in-the-gap-before-this-table] forall j int :: (0 <= j && j < len(tables)) ==> !holdsKey(tables[j], ukey)
+//@   ensures [C01,C03,C06:base-level-means-no-deeper-table-holds-the-key] result ==> (forall l int :: (c.sourceLevel + 2 <= l && l < len(c.v.levels)) ==> (forall j int :: (0 <= j && j < len(c.v.levels[l])) ==> !holdsKey(c.v.levels[l][j], ukey)))
+
 // The key range of a set of tables covers every table of the set (it decides which tables of the next level a
 // compaction must take in, so that levels stay disjoint).
 //@ func (tFiles).getRange
